@@ -19,11 +19,19 @@ def arg_bytes(args, choice):
     for i, (ty, name) in enumerate(args):
         v = choice(ty, name, i)
         if ty == "str":
-            out += (b"lbl%d" % (v & 0xff)) + b"\0"
+            out += str_value(v).encode() + b"\0"
         else:
             size = catalog.TYPE_SIZE[ty]
             out += (v & (2 ** (8 * size) - 1)).to_bytes(size, "little")
     return out
+
+
+def str_value(v):
+    """string argument for value v: 'lbl<n>' for small codes, a label of exactly v>>8 characters otherwise"""
+    if v >> 8 and v > 0 and (v >> 8) < 2000:
+        n = v >> 8
+        return ("L%d_" % n + "abcdefghij" * 200)[:n]
+    return "lbl%d" % (v & 0xff)
 
 
 def mk_event(si, decl, vals):
@@ -72,7 +80,7 @@ def expected_description(decl, vals):
             return m.group(0)
         ty, v = offs[name]
         if ty == "str":
-            return fmt_str("%" + fmt if fmt else None, "lbl%d" % (v & 0xff))
+            return fmt_str("%" + fmt if fmt else None, str_value(v))
         size = catalog.TYPE_SIZE[ty]
         v &= 2 ** (8 * size) - 1
         return fmt_value(ty, "%" + fmt if fmt else None, v)
@@ -221,6 +229,10 @@ def run(prop, tier):
                     jobs.append((model, e, [val] * len(e.args)))
                     if not e.args:
                         break
+                if any(ty == "str" for ty, _ in e.args):
+                    # labels of every interesting length (the emulator accepts up to 511 characters)
+                    for n in (1, 2, 100, 254, 255, 256, 257, 400, 511):
+                        jobs.append((model, e, [(n << 8) if ty == "str" else 5 for ty, _ in e.args]))
 
         def one(j):
             model, e, vals = j
